@@ -1,0 +1,7 @@
+//go:build !verif
+
+package skl
+
+// verifSklPoint marks a schedule point of Put (see verif_on.go). Without the `verif` build tag
+// it is an empty function that the compiler inlines away.
+func verifSklPoint(id int) {}
